@@ -22,7 +22,7 @@ CHUNK = 16
 FLOOR = 0.5
 RULE = ('det: every assignment of the 10 bound patterns {free,>=0,<=0,lower<0,upper>0,lb<0<ub,[0,u],[l,0],fixed 0,'
         'fixed >0} + every pair involving one of the 5 sign variants {lower>0, upper<0, lb<ub<0, 0<lb<ub, fixed<0} on '
-        '6 cone kinds (thorough: all 20), to n=2 variables x 7 row-sense mixes (1-3 rows of <=,>=,==) x 20 cone kinds x {min,max} '
+        '6 cone kinds (thorough: 10), to n=2 variables x 7 row-sense mixes (1-3 rows of <=,>=,==) x 20 cone kinds x {min,max} '
         '(thorough: + all 39 ordered row mixes x 8 cone kinds, + n=3 x 3 row mixes x 5 cone kinds); '
         'ro: 17 set kinds x 3 rule kinds x 9 bound pairs x 2 objective forms x {min,max}; dro: 4 supports x 3 '
         'expectation sets x 2 probability sets x 4 adaptations x {min,max}; mix: 3 front ends x 4 (cone-size order, '
@@ -70,6 +70,7 @@ BP = {
     'fixn': [(-0.5, -0.5, -0.5), (-1.25, -1.25, -1.25), (-0.75, -0.75, -0.75), (-1.0, -1.0, -1.0)],
 }
 CONES_SIGN = ['none', 'norm', 'exp', 'norm+exp', 'cc1', 'cc2']     # cone kinds paired with the sign variants
+CONES_SIGN_T = CONES_SIGN + ['rsocone', 'kldiv', 'sumsqr+kldiv', 'ccshare2']
 ROWS_Q = ['L', 'G', 'E', 'LG', 'GE', 'EE', 'LGE']
 ROWS_T = [''.join(p) for k in (1, 2, 3) for p in itertools.product('LGE', repeat=k)]
 CONES = ['none', 'norm', 'square', 'sumsqr', 'rsocone', 'quad', 'exp', 'log', 'entropy', 'kldiv', 'expcone',
@@ -122,7 +123,7 @@ def gen_cases(tier, seed):
         if bp[0] in BPS and bp[1] in BPS:
             continue
         for rw in ROWS_Q:
-            for cone in (CONES if thorough else CONES_SIGN):
+            for cone in (CONES_SIGN_T if thorough else CONES_SIGN):
                 for sense in ('min', 'max'):
                     yield {'fam': 'det', 'bp': list(bp), 'rows': rw, 'cone': cone, 'sense': sense, 'pal': pal}
     if thorough:
